@@ -12,23 +12,27 @@ import (
 	"time"
 
 	"golang.org/x/crypto/ssh"
+	"golang.org/x/crypto/ssh/agent"
 
 	"github.com/theparanoids/ysshra/agent/shimagent"
 	"github.com/theparanoids/ysshra/internal/zzverif/ev"
 	"github.com/theparanoids/ysshra/internal/zzverif/uagent"
 	"github.com/theparanoids/ysshra/zzverifrt/vnet"
 	"github.com/theparanoids/ysshra/zzverifrt/vsync"
+	"github.com/theparanoids/ysshra/zzverifrt/vtime"
 )
 
 // c11SlowUpstream is a declared real-time side check (like the free-running -race pass, it is not the deciding step): the
 // scheduler cannot own timers and goroutines that the code under test might start on its own, so "one exchange at a time on
 // the connection to the underlying agent" is also observed with an upstream that takes 6.5 s to answer ONE raw request while
 // a second client issues its request 5.5 s into that wait. The upstream notes every request that arrives while an earlier
-// one is still unanswered. On a correct shim the second request simply waits for the first (the big lock is held).
+// one is still unanswered. On a correct shim the second request simply waits for the first (the big lock is held). A second phase makes the upstream slow for one identities request and then uses the same shim sequentially: every reply must still pair with its request.
 func c11SlowUpstream(c *ev.Ctx) {
 	c.Eval()
 	vsync.Sequential.Store(false) // real goroutines from here on: blocking on a lock is contention, not a leak
 	defer vsync.Sequential.Store(true)
+	vtime.Unset() // real connections, real time: a deadline the code under test puts on the connection must mean what it says
+	defer vtime.Set(c11T0)
 	ua := uagent.New()
 	ua.Raw = c11Echo
 	var wmu sync.Mutex
@@ -36,8 +40,10 @@ func c11SlowUpstream(c *ev.Ctx) {
 	var outstanding int
 	c11Seq++
 	addr := fmt.Sprintf("/verif/c11-slow-%d", c11Seq)
+	slowCode := byte(0xc9) // which request the upstream takes 6.5 s to answer (the first one with this code only)
+	slowUsed := false
 	vnet.Register(addr, func() (net.Conn, error) {
-		ce, se := vnet.NewBlockingPipe("slow-upstream")
+		ce, se := net.Pipe() // deadline-capable, like the unix socket of a real agent
 		go func() {
 			var hdr [4]byte
 			for {
@@ -61,10 +67,16 @@ func c11SlowUpstream(c *ev.Ctx) {
 					se.Write(rep.Raw)
 					wmu.Unlock()
 				}
-				if len(body) > 0 && body[0] == 0xc9 {
+				wmu.Lock()
+				slow := len(body) > 0 && body[0] == slowCode && !slowUsed
+				if slow {
+					slowUsed = true
+				}
+				wmu.Unlock()
+				if slow {
 					go func() { time.Sleep(6500 * time.Millisecond); answer() }()
 				} else {
-					answer()
+					go answer() // net.Pipe is unbuffered: never write from the reading goroutine
 				}
 			}
 		}()
@@ -134,4 +146,60 @@ func c11SlowUpstream(c *ev.Ctx) {
 	if a := got["A"]; a.err == nil && !bytes.Equal(a.resp, wantA) {
 		c.Violation("C11:foreign-reply:slow-upstream", "the first client received a reply that is not the reply to its own raw request", map[string]any{"slow_upstream": true})
 	}
+	// phase 2: the upstream is slow to answer ONE identities request; afterwards the same long-lived shim is used
+	// sequentially and every reply must still belong to its own request (a reader that gave up on the slow reply and left
+	// it in the stream would put every later exchange one reply out of step)
+	wmu.Lock()
+	slowCode, slowUsed = 11, false
+	wmu.Unlock()
+	t0 := time.Now()
+	done := make(chan error, 1)
+	go func() {
+		var e error
+		if p := ev.Guard(func() { _, e = sh.List() }); p != "" {
+			e = fmt.Errorf("panic: %s", p)
+		}
+		done <- e
+	}()
+	select {
+	case <-done:
+	case <-time.After(120 * time.Second):
+		c.Violation("C11:operations-never-complete:slow-upstream", "List did not return within 120 s of an upstream that answers after 6.5 s", nil)
+		return
+	}
+	if d := 8*time.Second - time.Since(t0); d > 0 {
+		time.Sleep(d) // the late reply has been written by now
+	}
+	step := func(what string, ok bool) {
+		if !ok {
+			c.Violation("C11:reply-stream-out-of-step:slow-upstream", "after one slow identities reply the long-lived shim no longer pairs replies with requests: "+what, map[string]any{"slow_upstream": true})
+		}
+	}
+	stepsDone := make(chan struct{})
+	go func() {
+		defer close(stepsDone)
+		if p := ev.Guard(func() { c11SlowSteps(c, sh, ua, step) }); p != "" {
+			c.Violation("C11:crash:slow-upstream", "after one slow reply a sequential operation on the same shim crashed (a reply of the wrong type reached the agent client):\n"+p, map[string]any{"slow_upstream": true})
+		}
+	}()
+	select {
+	case <-stepsDone:
+	case <-time.After(120 * time.Second):
+		c.Violation("C11:operations-never-complete:slow-upstream", "after one slow reply, sequential operations on the same shim did not complete within 120 s", map[string]any{"slow_upstream": true})
+	}
+	c.Outcome("slow-upstream/phase2")
+}
+
+func c11SlowSteps(c *ev.Ctx, sh shimagent.ShimAgent, ua *uagent.Agent, step func(string, bool)) {
+	k3 := c11Ids["K2"]
+	errAdd := sh.Add(agent.AddedKey{PrivateKey: k3.priv, Comment: "added after the slow listing"})
+	step(fmt.Sprintf("Add returned %v, the underlying agent holds the key: %v", errAdd, ua.Ring.Has(k3.pub.Marshal())), (errAdd == nil) == ua.Ring.Has(k3.pub.Marshal()) && errAdd == nil)
+	keys, errList := sh.List()
+	step(fmt.Sprintf("List returned %d identities (err=%v), the underlying agent holds %d", len(keys), errList, len(ua.Ring.Keys)), errList == nil && len(keys) == len(ua.Ring.Keys))
+	errLock := sh.Lock([]byte("p"))
+	step(fmt.Sprintf("Lock returned %v, underlying agent locked: %v", errLock, ua.Ring.Locked), errLock == nil && ua.Ring.Locked)
+	errWrong := sh.Unlock([]byte("wrong"))
+	step(fmt.Sprintf("Unlock with a wrong passphrase returned %v", errWrong), errWrong != nil && ua.Ring.Locked)
+	errRight := sh.Unlock([]byte("p"))
+	step(fmt.Sprintf("Unlock with the right passphrase returned %v, underlying agent locked: %v", errRight, ua.Ring.Locked), errRight == nil && !ua.Ring.Locked)
 }
